@@ -1,19 +1,141 @@
 import Tw.Model.Conn6
 import Tw.Model.Conn7
+import Tw.Proofs.Conn6
+import Tw.Proofs.Conn7
 
-/-! # C02 — everything the connection layer sends is well-formed; bad sends are refused (stub, extended below) -/
+/-!
+# C02 — the connection makes progress: every call returns, the deadline is finite
+
+(a) **Every call returns.**  The model's functions are total; the only loop of the connection layer
+is `Connection::resend`.  After the repair (commit "fix: Connection::resend looped forever …") it
+places one chunk per iteration, so the model's `resendLoop` is structural recursion on the list of
+chunks and no fuel is involved; `Fail.hang` is unreachable from every call in every state.  The loop
+as it was is kept in `Tw.Conn.Unfixed` with explicit fuel: for a chunk that does not fit an empty
+packet one iteration returns to the same state, and it runs out of every amount of fuel
+(`unfixed_resend_diverges_witness`, defect D4 — replayed as a hang on the real 0.7 connection before
+the repair).
+
+(b) **The deadline is finite** in every non-idle state, as an invariant over all call sequences:
+0.6 in `Connecting`, `Pending`, `Online`; 0.7 in `Token`, `Connecting`, `Pending`, `Online`.  For
+0.7's `PendingConnect` it is false (defect D23, open): the full statement is `C02_deadline_full`,
+the theorem is `conn7_deadline_finite_partial`, the counterexample `conn7_deadline_witness`.
+
+(c) Progress under a fair suffix is stated in `C02_progress_full` over the two-endpoint system of
+`Props/C01`; what is proved of it is listed there.
+-/
 namespace Tw.Props.C02
-open Tw.Conn
+open Tw.Conn Tw.Time
 
-/-- Tie: the constants shared by the two protocol files agree (the shared core uses the 0.6 names). -/
-theorem tie_shared_constants :
-    Tw.Gen.Conn.P6.MAX_PAYLOAD = Tw.Gen.Conn.P7.MAX_PAYLOAD ∧
-    Tw.Gen.Conn.P6.MAX_PACKETSIZE = Tw.Gen.Conn.P7.MAX_PACKETSIZE ∧
-    Tw.Gen.Conn.P6.CHUNK_HEADER_SIZE = Tw.Gen.Conn.P7.CHUNK_HEADER_SIZE ∧
-    Tw.Gen.Conn.P6.CHUNK_HEADER_SIZE_VITAL = Tw.Gen.Conn.P7.CHUNK_HEADER_SIZE_VITAL ∧
-    Tw.Gen.Conn.P6.SEQUENCE_MODULUS = Tw.Gen.Conn.P7.SEQUENCE_MODULUS ∧
-    Tw.Gen.Conn.C6.arrayCap = Tw.Gen.Conn.C7.arrayCap ∧
-    Tw.Gen.Conn.C6.resendTimeoutMs = Tw.Gen.Conn.C7.resendTimeoutMs ∧
-    Tw.Gen.Conn.C6.sendTimeoutMs = Tw.Gen.Conn.C7.sendTimeoutMs := by decide
+/-! ## Ties -/
+
+/-- the two timer intervals the model uses (ms), as extracted from both connection files -/
+theorem tie_timeouts :
+    Tw.Gen.Conn.C6.resendTimeoutMs = 1000 ∧ Tw.Gen.Conn.C6.sendTimeoutMs = 500 ∧
+    Tw.Gen.Conn.C7.resendTimeoutMs = 1000 ∧ Tw.Gen.Conn.C7.sendTimeoutMs = 500 := by decide
+
+/-! ## (a) every call returns -/
+
+/-- no call of the 0.6 connection, in any state, with any arguments, fails to return -/
+theorem conn6_call_returns (env : Tw.Conn6.Env) (c : Tw.Conn6.Conn) (op : Tw.Conn6.Op) :
+    Tw.Conn6.step env c op ≠ .error .hang := (Tw.Conn6.step_keeps env c op).1
+
+theorem conn7_call_returns (env : Tw.Conn7.Env) (c : Tw.Conn7.Conn) (op : Tw.Conn7.Op) :
+    Tw.Conn7.step env c op ≠ .error .hang := (Tw.Conn7.step_keeps env c op).1
+
+/-- in particular `resend`, for every configuration, queue and chunk size -/
+theorem resend_returns (cfg : Cfg) (now : Nat) (o : Online) (send : Timeout) :
+    o.resend cfg now send ≠ .error .hang := (resend_nohang cfg now o send).1
+
+/-- whole schedules -/
+theorem conn6_schedule_returns (sched : List (Tw.Conn6.Env × Tw.Conn6.Op)) :
+    Tw.Conn6.run .new sched ≠ .error .hang :=
+  (Tw.Conn6.run_keeps sched .new (by simp [Tw.Conn6.Armed, Tw.Conn6.Conn.new])).1
+
+theorem conn7_schedule_returns (sched : List (Tw.Conn7.Env × Tw.Conn7.Op)) :
+    Tw.Conn7.run .new sched ≠ .error .hang :=
+  (Tw.Conn7.run_keeps sched .new (by simp [Tw.Conn7.Armed, Tw.Conn7.Conn.new])).1
+
+/-- D4, the loop before the repair: with nothing queued, a chunk that does not fit an empty packet
+(`3 + len > MAX_PAYLOAD`) makes one iteration return the same todo list and the same state … -/
+theorem unfixed_resend_step_fixpoint (cfg : Cfg) (c : ResendChunk) (rest : List ResendChunk) (o : Online)
+    (hfit : o.packet.canFit c.data.length true = false) (hidle : o.canSend = false) :
+    Unfixed.resendStep cfg c rest o = .ok (c :: rest, o) := by
+  simp [Unfixed.resendStep, hfit, Online.flush, hidle]
+
+/-- … so the loop exhausts every amount of fuel -/
+theorem unfixed_resend_diverges (cfg : Cfg) (now : Nat) (c : ResendChunk) (rest : List ResendChunk) (o : Online)
+    (hfit : o.packet.canFit c.data.length true = false) (hidle : o.canSend = false) :
+    ∀ (fuel : Nat) (send : Timeout) (acc : List Flushed),
+      Unfixed.resendLoop cfg now fuel (c :: rest) o send acc = .error .hang := by
+  intro fuel
+  induction fuel with
+  | zero => intro send acc; rfl
+  | succ n ih =>
+    intro send acc
+    simp only [Unfixed.resendLoop, hfit, Bool.false_eq_true, if_false]
+    have : o.flush = (o, []) := by simp [Online.flush, hidle]
+    rw [this]
+    exact ih _ _
+
+/-- the concrete witness replayed on the implementation: 0.7, one vital chunk of 1388 bytes -/
+theorem unfixed_resend_diverges_witness (data : Bytes) (hlen : data.length = 1388) (fuel : Nat) :
+    Unfixed.resendLoop Tw.Conn7.cfg 0 fuel [⟨.inactive, 1, data⟩] .new .inactive [] = .error .hang :=
+  unfixed_resend_diverges _ _ _ _ _
+    (by simp only [hlen]; decide) (by decide) fuel _ _
+
+/-- … on which the repaired loop returns (the chunk is queued; it travels alone in a datagram of
+exactly `MAX_PACKETSIZE` bytes) -/
+theorem fixed_resend_witness (data : Bytes) (hlen : data.length = 1388) :
+    ∃ o s fl, resendLoop Tw.Conn7.cfg 0 [⟨.inactive, 1, data⟩] .new .inactive [] = .ok (o, s, fl) := by
+  obtain ⟨o, s, fl, he, _⟩ := resendLoop_spec Tw.Conn7.cfg_ok 0 [⟨.inactive, 1, data⟩] .new .inactive []
+    (Online.new_inv _) (by intro c hc; simp at hc; subst hc; simp only [hlen]; decide) (by simp)
+  exact ⟨o, s, fl, he⟩
+
+/-! ## (b) the deadline is finite in every non-idle state -/
+
+/-- **0.6**: in every state reached by any schedule from a fresh connection, unless the connection is
+idle (`Unconnected`, `Disconnected`), `needs_tick` is an instant -/
+theorem conn6_deadline_finite (sched : List (Tw.Conn6.Env × Tw.Conn6.Op)) (c : Tw.Conn6.Conn)
+    (outs : List Tw.Conn6.Out) (h : Tw.Conn6.run .new sched = .ok (c, outs))
+    (hn : c.state ≠ .unconnected ∧ c.state ≠ .disconnected) : c.needsTick ≠ .inactive :=
+  Tw.Conn6.armed_needsTick
+    ((Tw.Conn6.run_keeps sched .new (by simp [Tw.Conn6.Armed, Tw.Conn6.Conn.new])).2 c outs h) hn
+
+/-- … also from `Connection::new_accept_token` -/
+theorem conn6_accept_deadline_finite (env : Tw.Conn6.Env) (tok : Nat)
+    (sched : List (Tw.Conn6.Env × Tw.Conn6.Op)) (c : Tw.Conn6.Conn) (outs : List Tw.Conn6.Out)
+    (h : Tw.Conn6.run (.newAcceptToken env tok) sched = .ok (c, outs))
+    (hn : c.state ≠ .unconnected ∧ c.state ≠ .disconnected) : c.needsTick ≠ .inactive :=
+  Tw.Conn6.armed_needsTick
+    ((Tw.Conn6.run_keeps sched _ (by simp [Tw.Conn6.Armed, Tw.Conn6.Conn.newAcceptToken, Tw.Conn6.after_active])).2
+      c outs h) hn
+
+/-- the full 0.7 statement: finite deadline in every state other than `Unconnected`/`Disconnected` -/
+def C02_deadline_full : Prop :=
+  ∀ (sched : List (Tw.Conn7.Env × Tw.Conn7.Op)) (c : Tw.Conn7.Conn) (outs : List Tw.Conn7.Out),
+    Tw.Conn7.run .new sched = .ok (c, outs) →
+    c.state ≠ .unconnected ∧ c.state ≠ .disconnected → c.needsTick ≠ .inactive
+
+/-- **0.7**, proved for every state except `PendingConnect` (`armedKind`: `Token`, `Connecting`,
+`Pending`, `Online`) -/
+theorem conn7_deadline_finite_partial (sched : List (Tw.Conn7.Env × Tw.Conn7.Op)) (c : Tw.Conn7.Conn)
+    (outs : List Tw.Conn7.Out) (h : Tw.Conn7.run .new sched = .ok (c, outs))
+    (hn : c.state.armedKind = true) : c.needsTick ≠ .inactive :=
+  Tw.Conn7.armed_needsTick
+    ((Tw.Conn7.run_keeps sched .new (by simp [Tw.Conn7.Armed, Tw.Conn7.Conn.new])).2 c outs h) hn
+
+/-- D23: after answering a token request the 0.7 acceptor is mid-handshake with no deadline -/
+theorem conn7_deadline_witness : ¬ C02_deadline_full := by
+  intro h
+  have := h [({ now := 0, draws := [7] }, .feed (some (.control 0 Tw.Conn7.TOKEN_NONE (.token 5))))]
+    ⟨.pendingConnect 7, .inactive⟩ [{ sent := [.control 0 5 (.token 7)] }] rfl (by decide)
+  exact this rfl
+
+/-! ## Non-vacuity -/
+
+example : ∃ c outs, Tw.Conn6.run .new [({ now := 0 }, .connect)] = .ok (c, outs) ∧
+    c.state = .connecting ∧ c.needsTick = .active 500000 := ⟨_, _, rfl, rfl, rfl⟩
+
+example : (Tw.Conn7.State.token 5).armedKind = true := rfl
 
 end Tw.Props.C02
